@@ -674,6 +674,14 @@ func runSaveLoad(sc SaveScenario, tmp string) world.Verdict {
 				sig = "C18/save-load/string-scalar-style"
 			}
 		}
+		if sc.Via != "load" {
+			// the same file loads correctly through config.Load: the entry point is at fault
+			if r2 := loadConfig("load", home, nil, nil); r2.panicV == nil && r2.execErr == nil && r2.loadErr == nil {
+				if d2, n2 := compareLeaves(&model, &r2.cfg); len(d2) == 0 && n2 == "" {
+					sig = "C18/file-key-ignored/" + sc.Via
+				}
+			}
+		}
 		return world.Fail(sig, "%s: %s was written as %s and loaded back as %s\nfile:\n%s", desc, d.l.GoName, q(d.want), q(d.got), file)
 	}
 	if got.RootDir != home {
